@@ -1,6 +1,8 @@
 package main
 
 import (
+	"github.com/wrgl/wrgl/pkg/local"
+	"path/filepath"
 	"database/sql"
 	"encoding/json"
 	"errors"
@@ -21,6 +23,7 @@ func init() {
 
 type c15Input struct {
 	Ops   [][]interface{} `json:"ops"`
+	ViaCLI bool           `json:"viaCLI,omitempty"` // delallremote / renameallremote are run as `wrgl remote remove / rename` on a repository directory
 	Store string          `json:"store,omitempty"` // "" / "sql": pkg/ref/sql; "fs": pkg/ref/fs (names are files below a root directory)
 }
 
@@ -36,7 +39,7 @@ var c15Names = []string{
 	"heads/a", "heads/a/b", "heads/ab", "heads/A", "heads/%", "heads/_", "tags/a", "remotes/o/main", "remotes/origin/main", "%", "txs/1/a",
 }
 var c15Prefixes = []string{"heads/", "heads/a", "heads/a/", "remotes/my_repo/", "remotes/my%", "remotes/", "tags/", "", "%", "heads/_", "HEADS/", "remotes/o"}
-var c15Remotes = []string{"my_repo", "myXrepo", "MY_REPO", "my%repo", "o", "origin", "my_"}
+var c15Remotes = []string{"my_repo", "myXrepo", "MY_REPO", "my%repo", "o", "origin", "my_", "origin/eu", "o/main"}
 
 func c15Sum(r *rand.Rand) string {
 	b := make([]byte, 16)
@@ -61,6 +64,7 @@ func c15Run(in *c15Input) Res {
 	return Guard(func() Res {
 		var rs ref.Store
 		var sqlDB *sql.DB
+		cliDir := ""
 		if in.Store == "fs" {
 			dir, err := os.MkdirTemp(privateTmp(), "reffs-")
 			if err != nil {
@@ -68,6 +72,25 @@ func c15Run(in *c15Input) Res {
 			}
 			defer os.RemoveAll(dir)
 			rs = reffs.NewStore(dir)
+		} else if in.ViaCLI {
+			root, err := os.MkdirTemp(privateTmp(), "rcli-")
+			if err != nil {
+				return Err("tmpdir")
+			}
+			defer os.RemoveAll(root)
+			os.Setenv("XDG_CONFIG_HOME", filepath.Join(root, "xdg"))
+			os.Setenv("HOME", root)
+			cliDir = filepath.Join(root, "repo", ".wrgl")
+			os.MkdirAll(filepath.Join(root, "repo"), 0755)
+			rd, err := local.NewRepoDir(cliDir, "")
+			if err != nil {
+				return Err("repodir")
+			}
+			if err := rd.Init(); err != nil {
+				return Err("init")
+			}
+			defer rd.Close()
+			rs = rd.OpenRefStore()
 		} else {
 			s, db, closeRS := NewRefStoreDB()
 			defer closeRS()
@@ -190,8 +213,21 @@ func c15Run(in *c15Input) Res {
 					pairs(ref.ListRemoteRefs(rs, r))
 				}
 			case "delallremote":
+				if cliDir != "" {
+					// the repository's configuration knows exactly this remote
+					setOnlyRemote(cliDir, s(1))
+					_, err := cli(cliDir, "remote", "remove", s(1))
+					okErr(err)
+					break
+				}
 				okErr(ref.DeleteAllRemoteRefs(rs, s(1)))
 			case "renameallremote":
+				if cliDir != "" && s(1) != s(2) {
+					setOnlyRemote(cliDir, s(1))
+					_, err := cli(cliDir, "remote", "rename", s(1), s(2))
+					okErr(err)
+					break
+				}
 				okErr(ref.RenameAllRemoteRefs(rs, s(1), s(2)))
 			}
 		}
@@ -238,6 +274,13 @@ func genC15(r *rand.Rand, thorough bool) *c15Input {
 		}
 		return in
 	}
+	if r.Intn(6) == 0 {
+		in.ViaCLI = true
+	}
+	if in.ViaCLI {
+		in.Ops = append(in.Ops, []interface{}{"setlog", "remotes/origin/main", c15Sum(r), "init"}, []interface{}{"setlog", "remotes/o/main", c15Sum(r), "init"},
+			[]interface{}{"renameallremote", "origin", "origin/eu"})
+	}
 	name := func() string { return c15Names[r.Intn(len(c15Names))] }
 	pfxs := func() []string {
 		k := r.Intn(3)
@@ -278,6 +321,11 @@ func genC15(r *rand.Rand, thorough bool) *c15Input {
 			op = []interface{}{"delallremote", c15Remotes[r.Intn(len(c15Remotes))]}
 		default:
 			op = []interface{}{"renameallremote", c15Remotes[r.Intn(len(c15Remotes))], c15Remotes[r.Intn(len(c15Remotes))]}
+			if in.ViaCLI && r.Intn(2) == 0 {
+				// the new name nested below the old one (or the other way round)
+				pr := [][]string{{"origin", "origin/eu"}, {"o", "o/main"}, {"origin/eu", "origin"}}[r.Intn(3)]
+				op = []interface{}{"renameallremote", pr[0], pr[1]}
+			}
 		}
 		in.Ops = append(in.Ops, op)
 	}
@@ -314,4 +362,11 @@ func corpusC15(ctx *Ctx, op string, raw json.RawMessage) {
 		panic(err)
 	}
 	ctx.Emit("ops", &in, c15Run(&in), true, "corpus")
+}
+
+
+// setOnlyRemote rewrites the repository's configuration file so that it knows exactly one remote.
+func setOnlyRemote(dir, name string) {
+	q, _ := json.Marshal(name)
+	os.WriteFile(filepath.Join(dir, "config.yaml"), []byte("remote:\n  "+string(q)+":\n    url: http://example.invalid/r\n"), 0644)
 }
